@@ -143,7 +143,7 @@ mod vk_array {
         chk_ledger(len, owned_from, &delivered);
     }
 
-    // @harness name=array_ledger_skip props=C08,C06,C10 kind=bounded bound="len == 3; c over the full usize domain"
+    // @harness name=array_ledger_skip props=C08,C15,C06,C10 kind=bounded bound="len == 3; c over the full usize domain"
     #[kani::proof]
     #[kani::unwind(5)]
     fn array_ledger_skip() {
